@@ -339,3 +339,144 @@ Proof.
     + rewrite !forallb_app. rewrite Hleaf; [|apply Forall_forall; intros m Hm; apply in_map_iff in Hm; destruct Hm as (o & <- & _); unfold send_to; eauto].
       destruct (0 <? collector), (ssub (amount_of (pos_lp p)) tp =? 0); reflexivity.
 Qed.
+
+(* ---------- supplies ---------- *)
+Lemma fold_left_ext' {A B} (f g : A -> B -> A) l : (forall a b, f a b = g a b) -> forall a, fold_left f l a = fold_left g l a.
+Proof. intros H. induction l as [|x r IH]; intros a; cbn; [reflexivity|]. rewrite H. apply IH. Qed.
+Lemma sup_get_set s d0 v d : sup_get (sup_set s d0 v) d = if String.eqb d d0 then v else sup_get s d.
+Proof.
+  induction s as [|[d' v'] r IH]; cbn [sup_set sup_get]; [reflexivity|].
+  destruct (String.eqb d0 d') eqn:E0; cbn [sup_get].
+  - apply String.eqb_eq in E0. subst d'. destruct (String.eqb d d0); reflexivity.
+  - destruct (String.eqb d d') eqn:E1.
+    + apply String.eqb_eq in E1. subst d'. rewrite String.eqb_sym in E0. rewrite E0. reflexivity.
+    + exact IH.
+Qed.
+
+Lemma sup_fold_add (sgn : Z) n : forall s d,
+  sup_get (fold_left (fun s c => sup_set s (denom_of c) (sup_get s (denom_of c) + sgn * amount_of c)) n s) d = sup_get s d + sgn * camt n d.
+Proof.
+  induction n as [|c r IH]; intros s d; cbn [fold_left camt]; [lia|].
+  rewrite IH, sup_get_set. rewrite (String.eqb_sym d (denom_of c)). destruct (String.eqb (denom_of c) d) eqn:E.
+  - apply String.eqb_eq in E. rewrite E. lia.
+  - lia.
+Qed.
+
+Lemma bank_burn_supply b from cs b' d : bank_burn b from cs = Ok b' -> supply b' d = supply b d - camt cs d.
+Proof.
+  unfold bank_burn. intros H. apply bind_ok in H. destruct H as [n [Hn H]]. apply bank_normalize_spec in Hn. destruct Hn as (_ & Hc & _).
+  apply bind_ok in H. destruct H as [l1 [_ H]]. inversion H; subst b'; clear H. unfold supply. cbn [b_supply].
+  rewrite (fold_left_ext' _ (fun s c => sup_set s (denom_of c) (sup_get s (denom_of c) + (-1) * amount_of c)))
+    by (intros a0 b0; f_equal; lia).
+  rewrite sup_fold_add, Hc. lia.
+Qed.
+Lemma bank_mint_supply b to cs b' d : bank_mint b to cs = Ok b' -> supply b' d = supply b d + camt cs d.
+Proof.
+  unfold bank_mint. intros H. apply bind_ok in H. destruct H as [n [Hn H]]. apply bank_normalize_spec in Hn. destruct Hn as (_ & Hc & _).
+  apply bind_ok in H. destruct H as [l1 [_ H]]. inversion H; subst b'; clear H. unfold supply. cbn [b_supply].
+  rewrite (fold_left_ext' _ (fun s c => sup_set s (denom_of c) (sup_get s (denom_of c) + 1 * amount_of c)))
+    by (intros a0 b0; f_equal; lia).
+  rewrite sup_fold_add, Hc. lia.
+Qed.
+
+Definition leaf_sup_eff (tf : list coin) (m : cmsg) (d : string) : Z :=
+  match m with
+  | MBankBurn cs => - camt cs d
+  | MTfCreateDenom _ => - camt tf d
+  | MTfMint coin _ => camt [coin] d
+  | MTfBurn coin => - camt [coin] d
+  | _ => 0
+  end.
+Fixpoint leaves_sup_eff (tf : list coin) (subs : list submsg) (d : string) : Z :=
+  match subs with [] => 0 | s :: r => leaf_sup_eff tf (sm_msg s) d + leaves_sup_eff tf r d end.
+
+Lemma exec_leaf_sup w c m w1 fl d :
+  is_leaf m = true -> exec_leaf w c m = (Ok w1, fl) ->
+  supply (w_bank w1) d = supply (w_bank w) d + leaf_sup_eff (w_tf_fee w) m d.
+Proof.
+  intros Hl H. unfold leaf_sup_eff.
+  destruct m as [to amt|amt|sd|cn to|cn|t wm fs]; cbn [exec_leaf] in H; try discriminate;
+    unfold bank_call, fault_tick in H; destruct (w_fault w) as [k|];
+    try (destruct (k =? 0); [discriminate|]); cbn [w_bank set_fault w_tf_fee] in H.
+  all: match type of H with
+       | context [bank_send ?b ?f ?t ?cs] => destruct (bank_send b f t cs) as [b'|e] eqn:Eb; [|discriminate];
+           inversion H; subst; cbn [w_bank set_bank set_fault]; rewrite (bank_send_supply _ _ _ _ _ d Eb); lia
+       | context [bank_burn ?b ?f ?cs] => destruct (bank_burn b f cs) as [b'|e] eqn:Eb; [|discriminate];
+           inversion H; subst; cbn [w_bank set_bank set_fault]; rewrite (bank_burn_supply _ _ _ _ d Eb); lia
+       | context [bank_mint ?b ?t ?cs] => destruct (bank_mint b t cs) as [b'|e] eqn:Eb; [|discriminate];
+           inversion H; subst; cbn [w_bank set_bank set_fault]; rewrite (bank_mint_supply _ _ _ _ d Eb); lia
+       end.
+Qed.
+
+Lemma exec_leaves_sup subs : forall w c w1 fl d,
+  forallb plain_leaf subs = true -> exec_leaves w c subs = (Ok w1, fl) ->
+  supply (w_bank w1) d = supply (w_bank w) d + leaves_sup_eff (w_tf_fee w) subs d.
+Proof.
+  induction subs as [|s rest IH]; intros w c w1 fl d H E; cbn [exec_leaves] in E.
+  - inversion E; subst. cbn [leaves_sup_eff]. lia.
+  - cbn [forallb] in H. apply andb_true_iff in H. destruct H as [Hs Hr].
+    unfold plain_leaf in Hs. apply andb_true_iff in Hs. destruct Hs as [Hl _].
+    destruct (exec_leaf w c (sm_msg s)) as [[w2|e] fl2] eqn:E2; [|discriminate].
+    rewrite (IH _ _ _ _ d Hr E), (exec_leaf_sup _ _ _ _ _ d Hl E2). cbn [leaves_sup_eff].
+    pose proof (exec_leaf_same _ _ _ _ _ Hl E2) as (_ & Htf & _). rewrite Htf. lia.
+Qed.
+
+(* supplies through a transaction whose handler answers with bank / token-factory messages only *)
+Theorem leaf_tx_supplies w sender target m funds w' :
+  run_tx w sender target m funds = Ok w' ->
+  exists wa w2 msgs,
+    same_contracts w wa /\ handle wa target sender funds m = Ok (w2, msgs) /\
+    (forallb plain_leaf msgs = true ->
+     forall d, supply (w_bank w') d = supply (w_bank w) d + leaves_sup_eff (w_tf_fee w) msgs d).
+Proof.
+  intros H. unfold run_tx in H.
+  destruct (process FUEL w sender [plain (MWasm target m funds)]) as [[wx|ex] flx] eqn:Ep; cbn [fst] in H; [|discriminate].
+  inversion H; subst wx; clear H. unfold FUEL in Ep.
+  destruct (plain_call _ _ _ _ _ _ _ _ Ep) as (wa & fla & w2 & subs2 & fl2 & Eb & Eh & E2).
+  assert (Htr : same_contracts w wa /\ forall dn, supply (w_bank wa) dn = supply (w_bank w) dn).
+  { destruct funds as [|f0 fr].
+    - inversion Eb; subst. split; [apply same_contracts_refl | reflexivity].
+    - split; [eapply bank_call_same; exact Eb|].
+      unfold bank_call, fault_tick in Eb. destruct (w_fault w) as [k|];
+        try (destruct (k =? 0); [discriminate|]); cbn [w_bank set_fault] in Eb;
+        (destruct (bank_send (w_bank w) sender target (f0 :: fr)) as [b'|e] eqn:Ebs; [|discriminate]);
+        inversion Eb; subst; cbn [w_bank set_bank set_fault]; intros dn; eapply bank_send_supply; exact Ebs. }
+  destruct Htr as [Hsa Hsup].
+  exists wa, w2, subs2. split; [exact Hsa|]. split; [exact Eh|].
+  intros Hleaf d. rewrite (process_leaves 6 _ target subs2 Hleaf) in E2.
+  rewrite (exec_leaves_sup subs2 _ _ _ _ d Hleaf E2).
+  assert (Hh : w_bank w2 = w_bank wa /\ w_tf_fee w2 = w_tf_fee wa).
+  { apply handle_ok_typed in Eh. destruct Eh as (Eh & _ & _). unfold handle_typed in Eh.
+    destruct (String.eqb target EM); [destruct m; inv_all; split; reflexivity|].
+    destruct (String.eqb target FC); [destruct m; inv_all; split; reflexivity|].
+    destruct (String.eqb target PM); [destruct m; inv_all; split; reflexivity|].
+    destruct (String.eqb target FM); [destruct m; inv_all; split; reflexivity | discriminate]. }
+  destruct Hh as [Hb2 Ht2]. rewrite Hb2, Ht2, Hsup. destruct Hsa as (_ & Htfa & _). rewrite Htfa. reflexivity.
+Qed.
+
+(* C04: ... and the burn fee is destroyed from the supply of the ask denom; no other supply changes *)
+Theorem swap_tx_supplies w sender funds ask bp ms r pid w' :
+  run_tx w sender PM (WPm (PmSwap ask bp ms r pid)) funds = Ok w' ->
+  exists offer sc,
+    one_coin funds = Ok offer /\ query_simulation (w_pm w) offer ask pid = Ok sc /\
+    forall d, supply (w_bank w') d = supply (w_bank w) d - ind (String.eqb ask d) (sc_burn_fee sc).
+Proof.
+  intros H. destruct (swap_tx_balances _ _ _ _ _ _ _ _ _ H) as (offer & sc & Hone & Hsim & _).
+  exists offer, sc. split; [exact Hone|]. split; [exact Hsim|].
+  destruct (leaf_tx_supplies _ _ _ _ _ _ H) as (wa & w2 & msgs & Hsa & Eh & Hsup).
+  apply handle_ok_typed in Eh. destruct Eh as (Eh & _ & _).
+  unfold handle_typed in Eh. cbn [String.eqb EM FC PM FM Ascii.eqb Bool.eqb] in Eh.
+  apply bind_ok in Eh. destruct Eh as [[s1 msgs1] [Hx Eh]]. inversion Eh; subst w2 msgs; clear Eh. cbn [pm_execute] in Hx.
+  apply swap_spec in Hx. destruct Hx as (p & offer' & sc' & _ & _ & Hone' & _ & Hps & Hmsgs).
+  destruct Hsa as (_ & _ & _ & _ & _ & Hpma & _).
+  assert (sc' = sc).
+  { assert (offer' = offer) by congruence. subst offer'.
+    symmetry. eapply simulation_eq_perform_swap; [exact Hps | rewrite Hpma; exact Hsim]. }
+  subst sc'. intros d. subst msgs1.
+  rewrite Hsup.
+  - unfold swap_fee_msgs.
+    destruct (sc_return sc =? 0), (sc_burn_fee sc =? 0) eqn:E1, (sc_protocol_fee sc =? 0);
+      cbn [app leaves_sup_eff leaf_sup_eff plain sm_msg camt denom_of amount_of fst snd]; unfold ind; destruct (String.eqb ask d); lia.
+  - rewrite forallb_app. unfold swap_fee_msgs. rewrite forallb_app.
+    destruct (sc_return sc =? 0), (sc_burn_fee sc =? 0), (sc_protocol_fee sc =? 0); reflexivity.
+Qed.
